@@ -1084,6 +1084,8 @@ func (sq *Queue) RemoveApplication(app *Application) {
 	delete(sq.allocatingAcceptedApps, appID)
 	priority := sq.recalculatePriority()
 	sq.Unlock()
+	// setAllocatingAccepted tracks the application in all parents too, clean those up
+	sq.parent.removeAllocatingAccepted(appID)
 	app.appEvents.SendRemoveApplicationEvent(appID)
 
 	sq.parent.UpdateQueuePriority(sq.Name, priority)
@@ -2077,6 +2079,20 @@ func (sq *Queue) setAllocatingAccepted(appID string) {
 	sq.Lock()
 	defer sq.Unlock()
 	sq.allocatingAcceptedApps[appID] = true
+}
+
+// removeAllocatingAccepted removes the application from the tracked accepted applications that have placeholders
+// allocated for this queue (recursively). The reverse of setAllocatingAccepted.
+func (sq *Queue) removeAllocatingAccepted(appID string) {
+	if sq == nil {
+		return
+	}
+	if sq.parent != nil {
+		sq.parent.removeAllocatingAccepted(appID)
+	}
+	sq.Lock()
+	defer sq.Unlock()
+	delete(sq.allocatingAcceptedApps, appID)
 }
 
 func (sq *Queue) GetPreemptionPolicy() policies.PreemptionPolicy {
